@@ -202,6 +202,8 @@ class Session:
             RE.state_hook = self._state_hook
             RE.subscribe(self._doc_cb)
             self.scn.configure(RE, self.d)
+            if hasattr(self.scn, "apply_common"):
+                self.scn.apply_common(RE, self.d)
             sched.drain()
             base = loop.nsteps
             # positions in schedules are relative to the first RE(...) call
@@ -245,6 +247,9 @@ class Session:
                 _uuid.uuid4 = _real_uuid4
                 if gc_was:
                     gc.enable()
+        obs.extra["ylog"] = getattr(self, "ylog", [])
+        obs.extra["results"] = self.ctx.results
+        obs.extra["plan_return"] = getattr(self, "plan_return", None)
         obs.extra["raised"] = self.ctx.raised
         obs.extra["status_excs"] = self.ctx.status_excs
         obs.timeline = self.timeline
@@ -331,6 +336,8 @@ class Session:
         """Transparent wrapper that records how the top-level plan generator ended."""
         from bluesky.utils import ensure_generator
 
+        if getattr(self.scn, "log_yields", False):
+            plan = self._logged(ensure_generator(plan), getattr(self.scn, "on_error", "propagate"))
         try:
             ret = yield from ensure_generator(plan)
         except GeneratorExit:
@@ -341,7 +348,42 @@ class Session:
             raise
         else:
             self.timeline.append(("plan_end", "returned"))
+            self.plan_return = ret
             return ret
+
+    def _logged(self, gen, on_error):
+        """Drive ``gen`` by hand and log, for every yield, what the engine sent or threw there.
+
+        on_error='propagate': an exception thrown at a yield is thrown into the plan (which may handle it or not);
+        on_error='swallow': it is logged and the plan continues as if the message had returned None.
+        Entries of self.ylog: [yield number, Msg, 'resp'|'exc', value].
+        """
+        self.ylog = []
+        resp = None
+        exc = None
+        k = 0
+        while True:
+            try:
+                msg = gen.throw(exc) if exc is not None else gen.send(resp)
+            except StopIteration as e:
+                return e.value
+            exc = None
+            try:
+                resp = yield msg
+                self.ylog.append([k, msg, "resp", resp])
+            except GeneratorExit:
+                self.ylog.append([k, msg, "closed", None])
+                gen.close()
+                raise
+            except BaseException as e:  # noqa: BLE001 - whatever the engine throws at this yield is the observation
+                self.ylog.append([k, msg, "exc", e])
+                from bluesky.utils import RunEngineControlException
+
+                if on_error == "swallow" and not isinstance(e, RunEngineControlException):
+                    resp = None
+                else:
+                    exc = e
+            k += 1
 
     def _script(self, RE, Msg, RunEngineInterrupted):
         scn = self.scn
